@@ -157,6 +157,7 @@ type adaptiveReport struct {
 	Cases      int          `json:"cases"`
 	Runs       int          `json:"runs"`
 	Checks     int          `json:"checks"`
+	Skipped    int          `json:"skipped"`
 	Nontrivial int          `json:"nontrivial"` // runs with at least one expansion and a budget cut
 	Groups     []*c20.Group `json:"groups"`
 	Samples    []any        `json:"samples"`
@@ -377,6 +378,10 @@ func cmdAdaptive(args []string) int {
 		}
 		idx++
 		rep.Cases++
+		if c20.Tripped() {
+			rep.Skipped++
+			return nil
+		}
 		var fixes []adaptiveFix
 		if c.Fix != nil {
 			fixes = []adaptiveFix{*c.Fix}
